@@ -804,3 +804,102 @@ CW_ARG = _cw_unit(_G + 'arraygas:ArrayGas', strings=('molecule_name',), arrays=(
 CW_SCL = _cw_unit(_C + 'simpleclouds:SimpleCloudsContribution')
 CW_LEE = _cw_unit(_C + 'leemie:LeeMieContribution')
 CW_FLT = _cw_unit(_C + 'flatmie:FlatMieContribution')
+
+
+# ------------------------------------------------------------------ store_contributions: every contribution and component stored under its name, grids stripped
+_GRID_KEYS = ['native_wngrid', 'native_wnwidth', 'native_wlgrid', 'native_wlwidth', 'binned_wngrid', 'binned_wnwidth', 'binned_wlgrid', 'binned_wlwidth']
+
+
+def _sc_params(c):
+    if c.mode == 'conc':
+        return dict(binner=dict(__obj__='Binner'), model=dict(__obj__='ForwardModel'), output_size=3)
+    return dict(binner=AbsObj('Binner', 'binner', {}), model=AbsObj('ForwardModel', 'model', {}), output_size=3)
+
+
+def _h_mc(full):
+    def h(ex, st, o, args, kwargs, node):
+        c = ex.c
+        comps = c.fixed['comps']
+        _ev(st, 'model_full_contrib' if full else 'model_contrib')
+        d = {}
+        for k, nk in enumerate(comps):
+            if full:
+                d['c%d' % k] = st.alloc(c, PyList([('comp_%d_%d' % (k, j), 'F:%d:%d' % (k, j), 'T:%d:%d' % (k, j), None) for j in range(nk)]))
+            else:
+                d['c%d' % k] = ('F:%d' % k, 'T:%d' % k, None)
+        return ('grid-full' if full else 'grid-main', st.alloc(c, PyDict(d)))
+    return h
+
+
+def _h_gso(ex, st, o, args, kwargs, node):
+    c = ex.c
+    mo = args[0]
+    _ev(st, 'generate_spectrum_output', tuple(mo), kwargs.get('output_size'))
+    d = {k: 'grid-entry' for k in (_GRID_KEYS if c.fixed['with_grids'] else _GRID_KEYS[:4])}
+    d['native_spectrum'] = mo[1]
+    d['native_tau'] = mo[2]
+    return st.alloc(c, PyDict(d))
+
+
+def _sc_expected(fx):
+    comps = fx['comps']
+    calls, res = [], {}
+    for k, nk in enumerate(comps):
+        calls.append((('grid-full', 'F:%d' % k, 'T:%d' % k, None), 3))
+        entry = {'native_spectrum': 'F:%d' % k, 'native_tau': 'T:%d' % k}
+        for j in range(nk):
+            calls.append((('grid-full', 'F:%d:%d' % (k, j), 'T:%d:%d' % (k, j), None), 3))
+            entry['comp_%d_%d' % (k, j)] = {'native_spectrum': 'F:%d:%d' % (k, j), 'native_tau': 'T:%d:%d' % (k, j)}
+        res['c%d' % k] = entry
+    return calls, res
+
+
+def _sc_plain(heap, v):
+    if isinstance(v, Ref) and isinstance(heap[v.id], PyDict):
+        return {k: _sc_plain(heap, x) for k, x in heap[v.id].items.items()}
+    return v
+
+
+def _sc_post(c, v0, v1, r):
+    fx = c.fixed if c.mode != 'conc' else c.values
+    calls, res = _sc_expected(fx)
+    tr = list(c.trace or [])
+    got_calls = [(tuple(e[1]), e[2]) for e in tr if e[0] == 'generate_spectrum_output']
+    evals = [e[0] for e in tr if e[0] in ('model_contrib', 'model_full_contrib')]
+    got = r if c.mode == 'conc' else _sc_plain(c.raw['state'].heap, c.raw['ret'])
+    return {'one_evaluation_of_each_kind': evals == ['model_contrib', 'model_full_contrib'],
+            'one_spectrum_dictionary_per_contribution_and_component_on_the_native_grid': got_calls == calls,
+            'stored_under_their_names_without_the_repeated_grids': got == res}
+
+
+def _sc_native(c, p):
+    from taurex.util.output import store_contributions
+    fx = c.values
+    trace = []
+
+    class _M:
+        def model_contrib(self):
+            trace.append(('model_contrib',))
+            return 'grid-main', {'c%d' % k: ('F:%d' % k, 'T:%d' % k, None) for k in range(len(fx['comps']))}
+
+        def model_full_contrib(self):
+            trace.append(('model_full_contrib',))
+            return 'grid-full', {'c%d' % k: [('comp_%d_%d' % (k, j), 'F:%d:%d' % (k, j), 'T:%d:%d' % (k, j), None) for j in range(nk)]
+                                 for k, nk in enumerate(fx['comps'])}
+
+    class _B:
+        def generate_spectrum_output(self, mo, output_size=None):
+            trace.append(('generate_spectrum_output', tuple(mo), output_size))
+            d = {k: 'grid-entry' for k in (_GRID_KEYS if fx['with_grids'] else _GRID_KEYS[:4])}
+            d.update(native_spectrum=mo[1], native_tau=mo[2])
+            return d
+    return store_contributions(_B(), _M(), output_size=3), dict(p, __trace__=trace)
+
+
+_SC_CASES = [dict(comps=cs, with_grids=g) for cs in [(), (1,), (2,), (0, 1), (1, 2)] for g in (True, False)]
+SCU = Unit(['C16', 'C03'], 'taurex.util.output:store_contributions', _sc_params, post=_sc_post, cases=_SC_CASES, bounds=[{}], native=_sc_native,
+           abstract={'ForwardModel.model_contrib': _h_mc(False), 'ForwardModel.model_full_contrib': _h_mc(True), 'Binner.generate_spectrum_output': _h_gso},
+           gen=lambda rng: dict(rng.choice(_SC_CASES)), short='store_contributions',
+           doc='the stored contribution spectra: one spectrum dictionary per contribution and per component (of the binner, by its own units), '
+               'each built from the own flux of that contribution and optical depth, stored under its name, the repeated grid entries removed '
+               '(0..2 contributions with 0..2 components; binners with and without binned grids)')
